@@ -40,6 +40,12 @@
    * "... or the key is already present"
        C18_insert_unchecked_eq_insert_found, C18_insert_i_eq_insert_ii_found  (the search
        finds the key; the map may be full; ANY environment).
+       C18_insert_unchecked_eq_insert_present : the same with "present" meaning "a key of
+       the same class is stored" (find_idx ... = Some i), for a lawful ==;
+       C18_insert_unchecked_present_spec : ... composed with insert's specification - on a
+       present key, full map or not, release or debug, insert_unchecked returns normally,
+       keeps WF / capacity, replaces the value in place, keeps the stored key object,
+       returns the old value, destroys the supplied key once.
        C18_insert_i_eq_general combines the cases and adds a third one in which the two also
        coincide: a == comparison panics during the search.
    * "get_disjoint_unchecked_mut, whenever the requested keys are pairwise different, behaves
@@ -72,18 +78,20 @@
 
    PARTLY COVERED / NOT COVERED BY A THEOREM
      - C18_keeps_insert_unchecked / C18_conserves_insert_unchecked are stated for "room or
-       debug"; for "full, key present, release build" safety and ownership follow only
-       through C18_insert_unchecked_eq_insert_found + the theorems about insert (no single
-       composed theorem in this file).
-     - "key present" is the operational [scan .. = Ok (Some i) w1], not "a key of this class
-       is stored"; the two agree for a lawful == (Lawful.scan_lawful, not restated here).
+       debug".  For "full, key present, release build": safety, WF, capacity, content, result
+       and drops are NOW the composed theorem C18_insert_unchecked_present_spec (lawful ==);
+       the ledger form of ownership (acct) in that case still follows only through
+       C18_insert_unchecked_eq_insert_present + C02_conserves_insert.
+     - CLOSED: "key present" used to be only the operational [scan .. = Ok (Some i) w1];
+       C18_insert_unchecked_eq_insert_present states it as "a key of this class is stored"
+       for a lawful ==.
      - C18_disjoint_unchecked_eq needs a lawful environment; with lying == only safety is
        claimed (Props/C13.v, C17.v).  The equality of the two final callback states is not
        claimed (and is false: see C18_example_disjoint).                                   *)
 (* ========================================================================== *)
 Require Import Model.Base Model.Slots Model.MapOps Model.Exec.
 Require Import Proofs.Hoare Proofs.Inv Proofs.Safety Proofs.Safety2 Proofs.Spec Proofs.Lawful Proofs.Lawful2.
-Require Import Proofs.Disjoint Proofs.Owned Proofs.ExecSafe Proofs.FmtSerde Proofs.Legacy.
+Require Import Proofs.Disjoint Proofs.Owned Proofs.ExecSafe Proofs.FmtSerde Proofs.Legacy Proofs.Gaps.
 
 (* -------------------------------------------------------------------------- *)
 (* Disjoint.insert_i_eq_general                                                *)
@@ -195,6 +203,47 @@ Proof. exact insert_unchecked_contract_needed. Qed.
 Print Assumptions C18_insert_unchecked_contract_needed.
 
 (* -------------------------------------------------------------------------- *)
+(* Gaps.insert_unchecked_eq_insert_present / insert_unchecked_present_spec:
+   "the key is already present" in its SPECIFICATION-level form - a key of the same
+   class is stored (find_idx ck (ck k) (Spec.elems (self w)) = Some i), lawful ==,
+   the map may be FULL, release or debug build                                   *)
+Theorem C18_insert_unchecked_eq_insert_present :
+  forall (K V Q T : Type) (E : env K V Q T) (debug : bool) (ck : K -> N) (cq : Q -> N),
+    Lawful E ck cq ->
+    forall (k : K) (v : V) (i : nat) (w : world K V T),
+      WF (self w) ->
+      find_idx ck (ck k) (Spec.elems (self w)) = Some i ->
+      insert_unchecked E debug k v w = insert E debug k v w.
+Proof. exact (@insert_unchecked_eq_insert_present). Qed.
+Print Assumptions C18_insert_unchecked_eq_insert_present.
+
+(* ... composed with the specification of insert: in that situation
+   insert_unchecked never panics, never reaches UB, keeps WF and the capacity,
+   computes the list machine's l_insert (value replaced in place, stored key
+   object kept), returns the old value and destroys exactly the supplied
+   duplicate key *)
+Theorem C18_insert_unchecked_present_spec :
+  forall (K V Q T : Type) (E : env K V Q T) (debug : bool) (ck : K -> N) (cq : Q -> N),
+    Lawful E ck cq ->
+    forall (k : K) (v : V) (i : nat) (w : world K V T),
+      WF (self w) ->
+      find_idx ck (ck k) (Spec.elems (self w)) = Some i ->
+      wp (insert_unchecked E debug k v)
+         (fun (r : option V) (w' : world K V T) =>
+            WF (self w') /\
+            cap (self w') = cap (self w) /\
+            Spec.elems (self w') = fst (fst (l_insert ck (Spec.elems (self w)) k v false)) /\
+            r = option_map snd (snd (l_insert ck (Spec.elems (self w)) k v false)) /\
+            logged w w' (match snd (l_insert ck (Spec.elems (self w)) k v false) with
+                         | Some (k', _) => ev_drops (idK E k')
+                         | None => []
+                         end))
+         (fun _ : world K V T => False)
+         w.
+Proof. exact (@insert_unchecked_present_spec). Qed.
+Print Assumptions C18_insert_unchecked_present_spec.
+
+(* -------------------------------------------------------------------------- *)
 (* Non-vacuity.  m3 (Proofs/Legacy.v): full, 3 entries of classes 5, 6, 7,
    capacity 3.  C18_m1: one entry, capacity 2 (room left).                     *)
 Definition C18_sc0 : script := {| sc_adv := false; sc_seed := 0; sc_fk := 0; sc_fa := 0 |}.
@@ -271,3 +320,12 @@ Example C18_example_disjoint :
     Ok [Some 2; None; Some 0]
        {| cb := {| n_eq := 10; n_clone := 0; n_call := 0; next_id := 100000 |}; log := []; self := m3 |}.
 Proof. split; vm_compute; reflexivity. Qed.
+
+(* the hypothesis of C18_insert_unchecked_eq_insert_present / _present_spec on the
+   FULL map m3: a key of class 6 is stored at slot 1 (the run is C18_example_run_found) *)
+Example C18_example_present :
+  find_idx kcls (kcls (k_ 9 6)) (Spec.elems (self (w_of m3))) = Some 1 /\
+  len (self (w_of m3)) = cap (self (w_of m3)) /\
+  l_insert kcls (Spec.elems m3) (k_ 9 6) (v_ 10 1) false
+    = ([(k_ 1 5, v_ 2 7); (k_ 3 6, v_ 10 1); (k_ 5 7, v_ 6 9)], 1, Some (k_ 9 6, v_ 4 8)).
+Proof. repeat split; vm_compute; reflexivity. Qed.
